@@ -56,7 +56,7 @@ fn hostile_txs(h: &Hostile) -> Option<Vec<Transaction>> {
         "ACCUMULATION" => Some(Operation::Accumulation { amount: a, total_value: gbp(b), tax_paid: gbp(Decimal::ZERO) }),
         "SPLIT" => Some(Operation::Split { ratio: a }),
         "UNSPLIT" => Some(Operation::Unsplit { ratio: a }),
-        "BUYSAME" | "SELLPAIR" => None,
+        "BUYSAME" | "SELLPAIR" | "SPLITMID" | "UNSPLITMID" => None,
         _ => Some(Operation::Dividend { total_value: gbp(a), tax_paid: gbp(Decimal::ZERO) }),
     };
     let mut v = vec![buy.clone()];
@@ -66,6 +66,12 @@ fn hostile_txs(h: &Hostile) -> Option<Vec<Transaction>> {
     } else if h.second.kind == "SELLPAIR" {
         v.push(Transaction { date, ticker: "AAA".into(), operation: Operation::Sell { amount: a, price: gbp(Decimal::ONE), fees: gbp(Decimal::ZERO) } });
         v.push(Transaction { date, ticker: "AAA".into(), operation: Operation::Sell { amount: b, price: gbp(Decimal::from(2)), fees: gbp(Decimal::ZERO) } });
+    } else if h.second.kind == "SPLITMID" || h.second.kind == "UNSPLITMID" {
+        let d1 = date.succ_opt().unwrap_or(date);
+        let d2 = d1.succ_opt().unwrap_or(d1);
+        v.push(Transaction { date, ticker: "AAA".into(), operation: Operation::Sell { amount: b, price: gbp(Decimal::from(2)), fees: gbp(Decimal::ZERO) } });
+        v.push(Transaction { date: d1, ticker: "AAA".into(), operation: if h.second.kind == "SPLITMID" { Operation::Split { ratio: a } } else { Operation::Unsplit { ratio: a } } });
+        v.push(Transaction { date: d2, ticker: "AAA".into(), operation: Operation::Buy { amount: Decimal::ONE, price: gbp(Decimal::from(3)), fees: gbp(Decimal::ZERO) } });
     } else
     if let Some(op) = op { v.push(Transaction { date, ticker: "AAA".into(), operation: op }); }
     if h.order == "second_first" { v.reverse(); }
